@@ -178,7 +178,7 @@ class H5Writer:
             base = list(h5file)[0]
             base_handle = h5file[base]
 
-            if entity.name == base:
+            if not isinstance(entity, (Entity, EntityType)) and entity.name == base:
                 return base_handle
 
             uid = entity.uid
